@@ -10,8 +10,14 @@
 //
 // Three-valued reference: a package is must-include, must-exclude or don't-care. Don't-care is used
 // where neither the statement nor docs/config.html decide: packages at or under an experimental
-// directory (the statement does not list them as excluded, the code skips them) and multi-component
-// blacklist entries that occur deeper than the repo root.
+// directory (the statement does not list them as excluded, the code skips them), multi-component
+// blacklist entries that occur deeper than the repo root, and — when the expansion is rooted below
+// the repo root — whatever hangs on a component strictly ABOVE the start directory's own name that
+// only a walk from the repo root would have met: a plz-out or hidden ancestor (subrepos are expanded
+// from plz-out/subrepos/<name>/...) and a bare blacklisted name below the root (`vendor` for
+// `//a/vendor/x/...`). What IS decided for a start below the root: a start at or beneath a
+// directory blacklisted by its root-relative path (`third_party` for `//third_party/go/...`) yields
+// nothing, and neither does a start whose own name is blacklisted, hidden or plz-out.
 package c22
 
 import (
@@ -78,26 +84,45 @@ func contains(l []string, s string) bool {
 	return false
 }
 
-// classify decides what the statement says about directory d (which is known to hold a build file).
-// The second result names the rule that excluded it.
+// classify decides what the statement says about directory d (which is known to hold a build file)
+// for an expansion rooted at tc.Start. The second result names the rule that excluded it.
+// Any rule that excludes wins over a don't-care.
 func classify(tc treeCase, d string) (verdict, string) {
 	comps := []string{}
 	if d != "" {
 		comps = strings.Split(d, "/")
 	}
-	for _, c := range comps {
-		if c == "plz-out" {
-			return mustExclude, "plz-out"
-		}
-		if strings.HasPrefix(c, ".") {
+	// Components with index < above are proper ancestors of the start directory: a walk rooted at
+	// the start never visits them.
+	above := 0
+	if tc.Start != "" {
+		above = len(strings.Split(tc.Start, "/")) - 1
+	}
+	care := true
+	for i, c := range comps {
+		if c == "plz-out" || strings.HasPrefix(c, ".") {
+			if i < above {
+				care = false // rooted below plz-out / a hidden directory: not decided (subrepos live under plz-out)
+				continue
+			}
+			if c == "plz-out" {
+				return mustExclude, "plz-out"
+			}
 			return mustExclude, "hidden"
 		}
 	}
-	care := true
 	for _, b := range tc.Blacklist {
 		if !strings.Contains(b, "/") {
-			if contains(comps, b) {
-				return mustExclude, "blacklist"
+			for i, c := range comps {
+				if c != b {
+					continue
+				}
+				if i == 0 || i >= above {
+					// the name of a directory the walk meets, or (i == 0) the root-relative path of
+					// a directory: everything at or beneath it is blacklisted wherever the walk starts
+					return mustExclude, "blacklist"
+				}
+				care = false // a bare name strictly above the start and below the root: undocumented
 			}
 			continue
 		}
@@ -117,6 +142,48 @@ func classify(tc treeCase, d string) (verdict, string) {
 		return dontCare, ""
 	}
 	return mustInclude, ""
+}
+
+// startRelation names how the start directory relates to the configured lists and to the fixed
+// exclusions: the classes of expansions rooted inside something a walk from the root would skip.
+func startRelation(tc treeCase) string {
+	if tc.Start == "" {
+		return "root"
+	}
+	comps := strings.Split(tc.Start, "/")
+	base := comps[len(comps)-1]
+	for _, b := range tc.Blacklist {
+		if tc.Start == b {
+			return "start-is-blacklisted-path"
+		}
+	}
+	for _, b := range tc.Blacklist {
+		if strings.HasPrefix(tc.Start, b+"/") {
+			return "start-beneath-blacklisted-path"
+		}
+	}
+	if contains(tc.Blacklist, base) {
+		return "start-is-blacklisted-name"
+	}
+	for _, c := range comps[:len(comps)-1] {
+		if contains(tc.Blacklist, c) {
+			return "start-beneath-nested-blacklisted-name"
+		}
+	}
+	if base == "plz-out" || strings.HasPrefix(base, ".") {
+		return "start-is-hidden-or-plz-out"
+	}
+	for _, c := range comps[:len(comps)-1] {
+		if c == "plz-out" || strings.HasPrefix(c, ".") {
+			return "start-beneath-hidden-or-plz-out"
+		}
+	}
+	for _, e := range tc.Experimental {
+		if e != "" && under(tc.Start, e) {
+			return "start-in-experimental"
+		}
+	}
+	return "start-visible"
 }
 
 func (tc treeCase) buildDirs() map[string]bool {
@@ -151,11 +218,11 @@ func expect(tc treeCase) expectation {
 	return e
 }
 
-// startOK says whether a directory may be used as the start of an expansion without leaving what
-// the statement decides (the start itself is visible and not in any configured list).
+// startOK says whether a directory may be used as the start of an expansion: any directory of the
+// tree. (The three-valued reference decides what a start inside a blacklisted, experimental, hidden
+// or plz-out directory must, must not or may yield.)
 func startOK(tc treeCase, d string) bool {
-	v, _ := classify(tc, d)
-	return v == mustInclude
+	return d == "" || contains(tc.Dirs, d)
 }
 
 // ---------------------------------------------------------------------------------------------
@@ -473,6 +540,13 @@ func keyFor(tc treeCase, m mismatch) string {
 			return "extra/outside-start"
 		}
 		_, why := classify(tc, p)
+		// an expansion rooted at or inside something excluded yielded packages from it
+		switch rel := startRelation(tc); {
+		case why == "blacklist" && (rel == "start-is-blacklisted-path" || rel == "start-beneath-blacklisted-path" || rel == "start-is-blacklisted-name"):
+			return "extra/" + rel + "/yields-packages"
+		case (why == "hidden" || why == "plz-out") && rel == "start-is-hidden-or-plz-out":
+			return "extra/" + rel + "/yields-packages"
+		}
 		switch why {
 		case "blacklist":
 			for _, b := range tc.Blacklist {
@@ -650,6 +724,21 @@ func genConfig(rng *rand.Rand, tc *treeCase) {
 		}
 	}
 	seen := map[string]bool{}
+	// a top-level directory that has subdirectories, blacklisted by its (root-relative) name: the
+	// entry under which a deeper start directory exists
+	if rng.Intn(3) == 0 {
+		var tops []string
+		for _, d := range visible {
+			if strings.Count(d, "/") == 1 {
+				tops = append(tops, d[:strings.Index(d, "/")])
+			}
+		}
+		if len(tops) > 0 {
+			b := pick(rng, tops)
+			seen[b] = true
+			tc.Blacklist = append(tc.Blacklist, b)
+		}
+	}
 	for k := rng.Intn(4); k > 0; k-- {
 		b := entry(false)
 		if b != "" && !seen[b] && !strings.HasSuffix(b, "/") && !strings.HasPrefix(b, ".") {
@@ -665,9 +754,12 @@ func genConfig(rng *rand.Rand, tc *treeCase) {
 			}
 		}
 	}
-	// start directory
+	// start directory: the root, any directory of the tree, or (preferred when there is one) a
+	// directory at or strictly inside something the configuration or the fixed rules exclude — the
+	// expansions a top-down walk from the root never tells anything about.
 	tc.Start = ""
-	if rng.Intn(3) == 0 {
+	switch rng.Intn(4) {
+	case 0:
 		var ok []string
 		for _, d := range visible {
 			if startOK(*tc, d) {
@@ -676,6 +768,27 @@ func genConfig(rng *rand.Rand, tc *treeCase) {
 		}
 		if len(ok) > 0 {
 			tc.Start = pick(rng, ok)
+		}
+	case 1:
+		var inside, beneathPath []string
+		for _, d := range tc.Dirs {
+			c := *tc
+			c.Start = d
+			switch rel := startRelation(c); rel {
+			case "root", "start-visible":
+			case "start-beneath-blacklisted-path":
+				beneathPath = append(beneathPath, d)
+				inside = append(inside, d)
+			default:
+				inside = append(inside, d)
+			}
+		}
+		if len(beneathPath) > 0 && rng.Intn(2) == 0 {
+			tc.Start = pick(rng, beneathPath)
+		} else if len(inside) > 0 {
+			tc.Start = pick(rng, inside)
+		} else if len(tc.Dirs) > 0 {
+			tc.Start = pick(rng, tc.Dirs)
 		}
 	}
 }
@@ -728,6 +841,18 @@ func directed() []treeCase {
 		mk("a/b", nil, nil, "a/BUILD", "a/b/c/BUILD.plz", "a/bc/BUILD", "a/b/BUILD"),
 		// build file names: both, look-alikes, a directory named like a build file
 		mk("", nil, nil, "a/BUILD", "a/BUILD.plz", "b/BUILD.plz", "c/BUILD.bazel", "d/build", "e/BUILD/BUILD", "f/xBUILD", "g/BUILD.txt", "h/BUILD/x"),
+		// expansions rooted at or inside an excluded directory (indices 17..): beneath / at a
+		// directory blacklisted by root-relative path, at a blacklisted name below the root, beneath
+		// one (undecided, but `out` below the start still applies), inside an experimental
+		// directory, and subrepo-like inside plz-out
+		mk("third_party/go", bl("third_party"), nil, "BUILD", "app/BUILD", "third_party/BUILD", "third_party/go/BUILD", "third_party/go/lib/BUILD", "third_party_tools/go/BUILD"),
+		mk("a/out/x", bl("a/out"), nil, "a/out/x/BUILD", "a/out/x/y/BUILD", "a/out/BUILD", "a/output/x/BUILD", "a/BUILD"),
+		mk("a/vendor", bl("vendor"), nil, "a/vendor/BUILD", "a/vendor/x/BUILD", "a/vendored/BUILD", "a/BUILD"),
+		mk("third_party", bl("third_party"), nil, "third_party/BUILD", "third_party/go/BUILD", "third_party_tools/BUILD"),
+		mk("a/vendor/x", bl("vendor", "out"), nil, "a/vendor/x/BUILD", "a/vendor/x/out/BUILD", "a/vendor/x/output/BUILD"),
+		mk("exp/a", nil, bl("exp"), "exp/a/BUILD", "exp/a/b/BUILD", "exp/BUILD", "expo/a/BUILD"),
+		mk("plz-out/subrepos/s", bl("out"), nil, "plz-out/subrepos/s/BUILD", "plz-out/subrepos/s/out/BUILD", "plz-out/subrepos/s/output/BUILD", "BUILD"),
+		mk("third_party/go", bl("third_party/go/lib", "go"), nil, "third_party/go/BUILD", "third_party/go/lib/BUILD", "third_party/go/lib2/BUILD"),
 	}
 }
 
@@ -771,10 +896,11 @@ func TestC22(t *testing.T) {
 	iplib.Quiet()
 	r := lib.Start("C22")
 	defer lib.End(t, r)
-	r.Rule = "a case = generated tree (dir names from a pool sharing prefixes/suffixes: out/output/outer/ou/xout, exp/expo, plz-out/plz-outs, .hid; BUILD, BUILD.plz and look-alike files; plain files named like pool dirs) x parse config derived from the tree's own names (exact component, proper string prefix, extension, suffix, root-relative path, truncated path) x start dir; distinct by full case; non-trivial = at least one package that must be yielded and at least one build-file directory that must not"
+	r.Rule = "a case = generated tree (dir names from a pool sharing prefixes/suffixes: out/output/outer/ou/xout, exp/expo, plz-out/plz-outs, .hid; BUILD, BUILD.plz and look-alike files; plain files named like pool dirs) x parse config derived from the tree's own names (exact component, proper string prefix, extension, suffix, root-relative path, truncated path) x start dir anywhere in the tree, a quarter of them at or inside a blacklisted / experimental / hidden / plz-out directory; distinct by full case; non-trivial = at least one build-file directory that must not be yielded and either one that must or a start inside an excluded directory"
 	r.Assumes = []string{
 		"the walker is entered as findOriginalTask enters it: cwd = repo root, FindAllBuildFiles(config, startDir, \"\")",
 		"packages at/under an experimental dir and path-like blacklist entries occurring below the root are don't-care (undocumented)",
+		"for an expansion rooted below the repo root, a plz-out / hidden ancestor of the start and a bare blacklisted name that is an ancestor of the start below the root are don't-care (subrepos are expanded from inside plz-out; the docs do not say); a start at or beneath a directory blacklisted by root-relative path, or whose own name is blacklisted / hidden / plz-out, must yield nothing",
 		"no symlinks are generated (godirwalk does not follow them; the docs do not say)",
 	}
 	scratch := r.Scratch()
@@ -797,7 +923,10 @@ func TestC22(t *testing.T) {
 	checkCase := func(i int, c treeCase, stream, root string) {
 		e := expect(c)
 		nInc, nExc := observe(r, c, e)
-		r.Case(stream+":"+lib.JSON(c), nInc > 0 && nExc > 0)
+		r.Obs("start/"+startRelation(c), 1)
+		rel := startRelation(c)
+		insideExcluded := rel != "root" && rel != "start-visible" && rel != "start-in-experimental"
+		r.Case(stream+":"+lib.JSON(c), nExc > 0 && (nInc > 0 || insideExcluded))
 		r.ObsDistinct("configs", lib.JSON([]any{c.Blacklist, c.Experimental, c.BuildFileName}))
 		got, raw, err := walkIn(scratch, root, c)
 		if err != nil {
@@ -806,6 +935,12 @@ func TestC22(t *testing.T) {
 		}
 		r.Obs("walks", 1)
 		r.Obs("build_files_yielded", int64(len(raw)))
+		if insideExcluded && nExc > 0 {
+			r.Obs("starts_inside_excluded_dir_with_packages_that_must_not_be_yielded", 1)
+		}
+		if len(raw) > 0 && (rel == "start-beneath-nested-blacklisted-name" || rel == "start-beneath-hidden-or-plz-out") {
+			r.Obs("undecided/"+rel+"/yielded_packages", 1) // observed only: the statement does not decide these
+		}
 		if r.WantSample() && nInc > 0 && nExc > 0 && len(c.Blacklist) > 0 {
 			r.Sample(map[string]any{"case": c, "yielded": raw})
 		}
@@ -876,15 +1011,15 @@ func TestC22(t *testing.T) {
 			checkCase(i, c, "walk", root)
 		}
 	})
-	r.RequireObserved("walks", "packages_must_include", "packages_must_exclude", "excluded_by_blacklist", "excluded_by_hidden", "excluded_by_plz-out", "dirs_with_blacklist_entry_as_bare_string_prefix")
+	r.RequireObserved("walks", "packages_must_include", "packages_must_exclude", "excluded_by_blacklist", "excluded_by_hidden", "excluded_by_plz-out", "dirs_with_blacklist_entry_as_bare_string_prefix", "start/start-beneath-blacklisted-path", "start/start-is-blacklisted-name", "starts_inside_excluded_dir_with_packages_that_must_not_be_yielded")
 
 	// End-to-end sample: the same reference against `plz query alltargets //start/...`.
 	// The first cases are directed ones (sibling prefixes, hidden, plz-out), the rest generated. A
 	// mismatch that the in-process walker shows identically on the same tree is reported under the
 	// in-process class (it is the same defect seen through the CLI); only a CLI result that differs
 	// from both the walker and the reference gets an e2e/ key.
-	e2eDirected := []int{0, 1, 6, 12, 13, 14}
-	nE2E := r.Pick(14, 300)
+	e2eDirected := []int{0, 1, 6, 12, 13, 14, 17, 19}
+	nE2E := r.Pick(16, 300)
 	r.ForEach("e2e", nE2E, 1, func(i int, rng *rand.Rand) {
 		var c treeCase
 		if i < len(e2eDirected) {
